@@ -996,7 +996,8 @@ impl Inner {
         self.settle().await;
         // two rounds: reading a request to its end and handing it to the user are separate wake-ups
         self.settle().await;
-        let tail = self.drain();
+        // (reading the handle must not be cut short by tokio's cooperative budget)
+        let tail = tokio::task::unconstrained(async { self.drain() }).await;
         let res = match self.feedback.take() {
             None => res,
             Some(mut rx) => match rx.try_recv() {
